@@ -640,6 +640,116 @@ example : (runM (genDownloadLink "/cache/l" "/pool/x") fsEx).map (fun fs => fs "
 example : (runM (genUploadLink "/cache/l" "/pool/a") fsEx).map (fun fs => fs "/pool/a") = .error .valueError := by rfl
 example : (runM (genDeleteLocal "/pool/a") fsEx).map (fun fs => fs "/pool/a") = .ok .absent := by rfl
 
+/-! ### The dispatchers `download` / `upload` / `delete` -/
+
+theorem isInfixL_single (c : Char) (l : List Char) : I2N.Rules.isInfixL [c] l = l.contains c := by
+  induction l with
+  | nil => rfl
+  | cons b bs ih =>
+    simp only [I2N.Rules.isInfixL, I2N.Rules.isPrefixL, ih, List.contains_cons, Bool.and_true]
+
+/-- Python's `";" in path` (substring test of `I2N.Rules`) is the model's character test -/
+theorem isSubstr_semicolon (p : List Char) : I2N.Rules.isSubstr ";" (String.ofList p) = p.contains ';' := by
+  have h : (String.ofList p).toList = p := String.toList_ofList
+  unfold I2N.Rules.isSubstr
+  rw [h]
+  exact isInfixL_single ';' p
+
+theorem ofList_eq_empty (l : List Char) : (String.ofList l == "") = (l == []) := by
+  cases l with
+  | nil => rfl
+  | cons a l =>
+    have : String.ofList (a :: l) ≠ "" := by
+      intro h
+      have := congrArg String.toList h
+      simp at this
+    rw [beq_eq_false_iff_ne.mpr this]; rfl
+
+theorem removeChar_ofList (p : List Char) :
+    pyRemoveChar ';' (String.ofList p) = String.ofList (p.filter (· != ';')) := by
+  unfold pyRemoveChar
+  have h : (String.ofList p).toList = p := String.toList_ofList
+  rw [h]
+
+/-- **`download` is the Python source of `TransferOps.download`**: the location string is split at `:`, anything but two parts is
+a `ValueError`, a host part means a remote transfer (outside the model), a `;` in the path selects link mode and is
+removed, everything else is local mode.  No hypotheses. -/
+theorem download_matches_source (fs : FS) (cache spec : String) :
+    runM (genDownload cache spec) fs = download sourceLimit fs cache spec := by
+  unfold genDownload download dispatch splitColonStr remoteM
+  generalize splitColon spec.toList = parts
+  match parts with
+  | [] => unfold runM; m_simp []
+  | [a] => unfold runM; m_simp []
+  | a :: b :: c :: r => unfold runM; m_simp []
+  | [a, b] =>
+    unfold runM
+    m_simp [ofList_eq_empty, isSubstr_semicolon, removeChar_ofList]
+    by_cases ha : a = [] <;> by_cases hb : ';' ∈ b <;> simp only [ha, hb, if_true, if_false]
+    · rw [← downloadLink_matches_source]; unfold runM; m_simp []
+      generalize genDownloadLink cache (String.ofList (List.filter (fun x => x != ';') b)) fs = r
+      cases r <;> rfl
+    · rw [← downloadLocal_matches_source]; unfold runM; m_simp []
+      generalize genDownloadLocal cache (String.ofList b) fs = r
+      cases r <;> rfl
+    · rfl
+    · rfl
+
+/-- **`upload` is the Python source of `TransferOps.upload`**: the location string is split at `:`, anything but two parts is
+a `ValueError`, a host part means a remote transfer (outside the model), a `;` in the path selects link mode and is
+removed, everything else is local mode.  No hypotheses. -/
+theorem upload_matches_source (fs : FS) (cache spec : String) :
+    runM (genUpload cache spec) fs = upload sourceLimit fs cache spec := by
+  unfold genUpload upload dispatch splitColonStr remoteM
+  generalize splitColon spec.toList = parts
+  match parts with
+  | [] => unfold runM; m_simp []
+  | [a] => unfold runM; m_simp []
+  | a :: b :: c :: r => unfold runM; m_simp []
+  | [a, b] =>
+    unfold runM
+    m_simp [ofList_eq_empty, isSubstr_semicolon, removeChar_ofList]
+    by_cases ha : a = [] <;> by_cases hb : ';' ∈ b <;> simp only [ha, hb, if_true, if_false]
+    · rw [← uploadLink_matches_source]; unfold runM; m_simp []
+      generalize genUploadLink cache (String.ofList (List.filter (fun x => x != ';') b)) fs = r
+      cases r <;> rfl
+    · rw [← uploadLocal_matches_source]; unfold runM; m_simp []
+      generalize genUploadLocal cache (String.ofList b) fs = r
+      cases r <;> rfl
+    · rfl
+    · rfl
+
+/-- **`delete` is the Python source of `TransferOps.delete`**: the location string is split at `:`, anything but two parts is
+a `ValueError`, a host part means a remote transfer (outside the model), a `;` in the path selects link mode and is
+removed, everything else is local mode.  No hypotheses. -/
+theorem delete_matches_source (fs : FS) (spec : String) :
+    runM (genDelete spec) fs = delete fs spec := by
+  unfold genDelete delete dispatch splitColonStr remoteM
+  generalize splitColon spec.toList = parts
+  match parts with
+  | [] => unfold runM; m_simp []
+  | [a] => unfold runM; m_simp []
+  | a :: b :: c :: r => unfold runM; m_simp []
+  | [a, b] =>
+    unfold runM
+    m_simp [ofList_eq_empty, isSubstr_semicolon, removeChar_ofList]
+    by_cases ha : a = [] <;> by_cases hb : ';' ∈ b <;> simp only [ha, hb, if_true, if_false]
+    · rw [← deleteLocal_matches_source]; unfold runM; m_simp []
+      generalize genDeleteLocal (String.ofList (List.filter (fun x => x != ';') b)) fs = r
+      cases r <;> rfl
+    · rw [← deleteLocal_matches_source]; unfold runM; m_simp []
+      generalize genDeleteLocal (String.ofList b) fs = r
+      cases r <;> rfl
+    · rfl
+    · rfl
+
+/-- the generated dispatchers compute: local mode, link mode (the `;` is dropped), a remote location, a malformed one -/
+example : (runM (genDownload "/cache/a" ":/pool/a") fsEx).map (fun fs => fs "/cache/a") = .ok (.file [1, 2, 3]) := by rfl
+example : (runM (genDownload "/cache/a" ":/pool;/a") fsEx).map (fun fs => fs "/cache/a") = .ok (.link "/pool/a") := by rfl
+example : (runM (genUpload "/cache/b" "host:/pool/a") fsEx).map (fun fs => fs "/pool/a") = .error .notModelled := by rfl
+example : (runM (genDelete "/pool/a") fsEx).map (fun fs => fs "/pool/a") = .error .valueError := by rfl
+example : (runM (genDelete ":/pool/a") fsEx).map (fun fs => fs "/pool/a") = .ok .absent := by rfl
+
 end Regenerated
 
 end I2N.Props.C14
